@@ -1193,7 +1193,7 @@ fn case_togit(rng: &mut Rng, src: Vec<u8>, ident: bool) -> Case {
         pick_s(rng, STATES_TEXT),
         pick_s(rng, STATES_CRLF),
         pick_s(rng, STATES_EOL),
-        if ident { tag("set") } else { pick_s(rng, STATES_IDENT) },
+        if ident { pick_s(rng, &["set", "set", "set", "set", "=x", "=true", "unset", ""]) } else { pick_s(rng, STATES_IDENT) },
         if rng.chance(1, 10) { tag("1") } else { vec![] },
         pick_s(rng, AUTOCRLF),
         pick_s(rng, COREEOL),
@@ -1209,7 +1209,7 @@ fn case_towt(rng: &mut Rng, src: Vec<u8>, ident: bool) -> Case {
         pick_s(rng, STATES_TEXT),
         pick_s(rng, STATES_CRLF),
         pick_s(rng, STATES_EOL),
-        if ident { tag("set") } else { pick_s(rng, STATES_IDENT) },
+        if ident { pick_s(rng, &["set", "set", "set", "set", "=x", "=true", "unset", ""]) } else { pick_s(rng, STATES_IDENT) },
         if rng.chance(1, 10) { tag("1") } else { vec![] },
         pick_s(rng, AUTOCRLF),
         pick_s(rng, COREEOL),
@@ -1223,7 +1223,7 @@ fn gen(rng: &mut Rng, n: usize) -> Vec<Case> {
     // block A (first: these are the cases the git oracle sees): pipeline cases, deterministic then random
     let shapes: [&[u8]; 10] =
         [b"a\nb\n", b"a\r\nb\r\n", b"a\r\nb\n", b"a\rb\n", b"a\r\n\x1a", b"a\n\0", b"$Id$\n", b"x $Id: abc $ y\r\n", b"", b"$Id: a b $\n$Id:$"];
-    let lines: [[&str; 5]; 12] = [
+    let lines: [[&str; 5]; 14] = [
         ["", "", "", "", ""],
         ["set", "", "", "", ""],
         ["=auto", "", "", "set", ""],
@@ -1236,6 +1236,8 @@ fn gen(rng: &mut Rng, n: usize) -> Vec<Case> {
         ["", "", "=crlf", "", "1"],
         ["=auto", "", "", "", "1"],
         ["", "=input", "", "set", ""],
+        ["", "", "", "=x", ""],
+        ["=auto", "", "=crlf", "=true", ""],
     ];
     let mut det: Vec<Case> = Vec::new();
     for (i, src) in shapes.iter().enumerate() {
